@@ -70,6 +70,37 @@ def run (ctx):
     if h is not None: stats_handlers[sname] = h; ctx.analysed(h)
   ctx.floor('stats handlers', len(stats_handlers), 6)
 
+  # flow / aggregate statistics: the request's out_port is a filter unless it is OFPP_NONE (OpenFlow 1.0 5.3.5: "A value of
+  # OFPP_NONE indicates no restriction") - evaluated: what the handler hands to the table for a physical port, for the
+  # reserved ports and for OFPP_NONE
+  P_ = spec['ofp_port']; n_f = 0
+  for sname in ('OFPST_FLOW', 'OFPST_AGGREGATE'):
+    h = stats_handlers.get(sname)
+    if h is None: continue
+    gh = q.cfg_of(h); op_ = h.params[1] if len(h.params) > 1 else 'ofp'
+    tcall = lambda c: call_name(c) in ('flow_stats', 'aggregate_stats') and isinstance(c.func, ast.Attribute) and norm(c.func.value).endswith('table')
+    sites_ = gh.nodes_with_call(tcall)
+    if not sites_: ctx.undecided('R-AGREE', h, "out_port filter of %s" % sname, "table query not found", h, 'D4'); continue
+    wrong = []; unknown = 0
+    for pname, val, want in [('port 3', 3, 3), ('OFPP_NONE', P_['OFPP_NONE'], None)] + [(pn, P_[pn], P_[pn]) for pn in ('OFPP_CONTROLLER', 'OFPP_FLOOD', 'OFPP_ALL', 'OFPP_LOCAL', 'OFPP_IN_PORT', 'OFPP_TABLE') if pn in P_]:
+      got = set()
+      for p_, e_ in q.paths_under(repo, swmod, gh, q.Env({op_ + '.body.table_id': 0, op_ + '.body.out_port': val}), gh.entry, sites_, sw, limit=40):
+        c_ = [c for c in q.node_calls(p_[-1]) if tcall(c)][0]
+        a_ = kwarg(c_, 'out_port', 1)
+        try: v_ = q.eval_env2(repo, swmod, a_, e_, sw) if a_ is not None else None
+        except Exception: v_ = '?'
+        got.add('?' if v_ is q.OPAQUE else v_)
+      if not got or '?' in got: unknown += 1; continue
+      if got != {want}: wrong.append((pname, sorted(got, key=str), want))
+    n_f += 1
+    if unknown:
+      ctx.undecided('R-AGREE', h, "out_port filter of %s" % sname, "not evaluable for %d sample request(s)" % unknown, h, 'D4')
+    else:
+      ctx.ob('R-AGREE', h, "out_port filter of %s: every port value except OFPP_NONE restricts the reply" % sname, not wrong, "8 sample requests" if not wrong else
+             "a %s request with out_port = %s queries the table with out_port %s (should be %s): the reply lists flows that do not output to that port - it does not carry the data the specification requires"
+             % (sname, wrong[0][0], wrong[0][1], wrong[0][2]), h, 'D4')
+  ctx.floor('flow/aggregate stats filters evaluated', n_f, 2)
+
   # ---- D2 reply exactly once ----------------------------------------------
   REQ = {}   # message name -> reply type value
   for k, v in spec['request_reply'].items():
@@ -244,9 +275,47 @@ def run (ctx):
     e_ = ast.Attribute(value=c.args[0], attr='xid', ctx=ast.Load())
     vals = q.values_at(repo, swmod, g, q.Env({'ofp': '<request>', 'ofp.xid': 4242}, [((lambda x: isinstance(x, ast.Call) and call_name(x) == 'pack'), b'<packed>')]), sn, e_, sw)
     seen_vals.append(sorted(map(str, vals)))
-    if vals != {4242}: okx = False
+    if vals != {4242}: okx = None if (okx is not False and all(v_ in (4242, '?') for v_ in vals)) else False
   ctx.ob('R-AGREE', se, "error message takes the xid of the offending request", okx,
          "with ofp.xid = 4242 the sent error has xid 4242" if okx else "with ofp.xid = 4242 the error handed to send() has xid %s: the controller cannot pair the error with its request" % seen_vals, se, 'D3')
+  # ... and its data are the request's own bytes: the request re-serialised (ofp.pack()), or bytes kept on the request object
+  # by the byte connection - those must then be cut to the message (the receive buffer also holds what follows it)
+  srcs = []
+  for t, v, st, k in q.stores_in(se.node):
+    if isinstance(t, ast.Attribute) and t.attr == 'data' and v is not None: srcs.append(v)
+  for c in calls_in(se.node):
+    if call_name(c) == 'ofp_error' and kwarg(c, 'data') is not None:
+      v = kwarg(c, 'data')
+      if isinstance(v, ast.Name):
+        for d_, st_, k_ in q.reaching_assign(se.node, v.id):
+          if d_ is not None: srcs.append(d_)
+      else: srcs.append(v)
+  kept = set()
+  ofpp = se.params[3] if len(se.params) > 3 and se.params[3] == 'ofp' else 'ofp'
+  for v in srcs:
+    for x in ast.walk(v):
+      if isinstance(x, ast.Attribute) and norm(x.value) == ofpp and x.attr not in ('pack', 'xid') and isinstance(x.ctx, ast.Load): kept.add(x.attr)
+      if isinstance(x, ast.Call) and call_name(x) == 'getattr' and len(x.args) >= 2 and norm(x.args[0]) == ofpp and isinstance(x.args[1], ast.Constant): kept.add(x.args[1].value)
+  for attr in sorted(kept):
+    whole = []; cut = 0
+    for f_ in [m_ for c_ in swmod.classes.values() for m_ in c_.methods.values()]:
+      gf = None
+      for t, v, st, k in q.stores_in(f_.node):
+        if not (isinstance(t, ast.Attribute) and t.attr == attr and isinstance(t.value, ast.Name) and t.value.id != 'self') or v is None: continue
+        gf = gf or q.cfg_of(f_)
+        vs = [v]
+        if isinstance(v, ast.Name):
+          vs = [d_ for d_, st_, k_ in q.reaching_assign(f_.node, v.id) if d_ is not None] or [v]
+        for vv in vs:
+          if isinstance(vv, ast.Call) and call_name(vv) in ('peek', 'peek_receive_buf', 'recv', 'read') : whole.append((f_, st, vv))
+          elif isinstance(vv, ast.Subscript) and isinstance(vv.slice, ast.Slice): cut += 1
+    if whole:
+      f_, st, vv = whole[0]
+      ctx.bad('R-AGREE', se, "error data taken from `%s.%s` is the offending request only" % (ofpp, attr),
+              "send_error echoes `%s.%s`, and %s stores there `%s` - everything in the receive buffer, not the one message: an error for a request that arrived together with later bytes carries those bytes too "
+              "(and with enough of them the error's length overflows and the request gets no answer)" % (ofpp, attr, f_.qual, norm(st)[:50]), (swmod, st), 'D3')
+    else:
+      ctx.ob('R-AGREE', se, "error data taken from `%s.%s` is the offending request only" % (ofpp, attr), True if cut else None, "stored as a slice of the buffer" if cut else "no store of this attribute found", se, 'D3')
   # errors in OFConnection._error_handler
   ofc = repo.cls(switchq.SW, 'OFConnection')
   eh = ofc.find_method('_error_handler')
